@@ -155,7 +155,11 @@ def check_font_pictures(chk, font, cfg, srcs, glyph_specs, tol, ctx, replay, gri
             d = deltas[gi]
         else:
             d = 2.5 + max(tol, 0) * s + 1.0
+        before = oracle_cmp.ROUNDING_DOMINATED[0]
         probs = oracle_cmp.compare(exp, got, d, grid=grid, ctx=f"{ctx} glyph {gi}: ")
+        if oracle_cmp.ROUNDING_DOMINATED[0] > before:
+            chk.notes["layers_with_points_accepted_by_int16_rounding_bound"] = (
+                chk.notes.get("layers_with_points_accepted_by_int16_rounding_bound", 0) + oracle_cmp.ROUNDING_DOMINATED[0] - before)
         for p in probs:
             if "too small to judge" in p:
                 chk.notes["too_small_to_judge"] = chk.notes.get("too_small_to_judge", 0) + 1
